@@ -209,8 +209,14 @@ SPEC_MUTANTS = [
      ["         ELSE \\* progress / send: remember the error, stop taking items; an item in hand is dropped\n              /\\ fs' = [f0 EXCEPT !.residual = IF ctx = \"bp\" THEN -1 ELSE val, !.phase = \"flush\", !.arm = \"none\", !.hand = NoItem]"]),
     ("NestRace", "quick", "the inner join of a nest keeps the waker of its first poll (no set_waker later): a fresh caller waker per poll loses the wake-up",
      ["LET ird1 == [fs.ird EXCEPT !.parent = CallerWaker] IN"], ["LET ird1 == [fs.ird EXCEPT !.parent = IF @[1] = \"none\" THEN CallerWaker ELSE @] IN"]),
-    ("NestRace", "quick", "the race polls the losing inner join again after the leaf has won (no `done` guard)",
-     ["/\\ pc = \"begin\" /\\ ~fs.odone"], ["/\\ pc = \"begin\""]),
+    ("NestRace", "quick", "the losing inner join forgets the outputs it had already collected when it is dropped with the race (leak)",
+     ["  MapSeq(SelectSeq(<<0, 1>>, LAMBDA i : fs.ist[i] = \"R\"), LAMBDA i : EvVdrop(fs.iout[i]))\n  \\o MapSeq(SelectSeq(<<0, 1>>, LAMBDA i : fs.ist[i] = \"P\")"],
+     ["  MapSeq(SelectSeq(<<0, 1>>, LAMBDA i : fs.ist[i] = \"P\")"]),
+    ("NestChain", "quick", "the inner merge of a chain does not re-arm an input that yielded (the chain's consumer polls again and finds nothing ready)",
+     ["/\\ fs' = [fs EXCEPT !.ird = ISet(@, c), !.lvl = \"outer\"]"], ["/\\ fs' = [fs EXCEPT !.lvl = \"outer\"]"]),
+    ("NestChain", "quick", "the chain polls its ended first input (the inner merge) again instead of moving on",
+     ["/\\ fs' = [fs EXCEPT !.icomplete = @ + 1, !.ist[c] = \"N\", !.index = 1, !.lvl = \"outer\"]"],
+     ["/\\ fs' = [fs EXCEPT !.icomplete = @ + 1, !.ist[c] = \"N\", !.lvl = \"outer\"]"]),
 ]
 
 
